@@ -449,7 +449,9 @@ def _target_info(d):
 
 FOO_USES = ["common[0], 'foo.c'", "common, 'foo.c'", "'main.c', 'foo.c'", "files('main.c'), 'foo.c'", "extra, 'foo.c'"]
 BAR_USES = ["common, 'bar.c'", "common + ['v.c'], 'bar.c'", "['main.c', 'util.c'], 'bar.c'", "files('main.c', 'util.c'), 'bar.c'", "common, extra, 'bar.c'", "'bar.c', sources : common"]
-TARGET_OPS = [('src_add', 'alpha.c'), ('src_add', 'zeta.c'), ('src_add', 'util.c'), ('src_rm', 'util.c'), ('src_rm', 'main.c'), ('src_rm', 'bar.c')]
+TARGET_OPS = [('src_add', ['alpha.c']), ('src_add', ['zeta.c']), ('src_add', ['util.c']), ('src_rm', ['util.c']), ('src_rm', ['main.c']), ('src_rm', ['bar.c']),
+              # several files in ONE command: they may live in different nodes (a direct argument and a shared array), which are then sorted one after the other
+              ('src_rm', ['bar.c', 'util.c']), ('src_rm', ['util.c', 'bar.c']), ('src_add', ['zeta.c', 'alpha.c'])]
 
 
 def ob_target_edit():
@@ -461,13 +463,26 @@ def ob_target_edit():
         import os
         d = _tdir()
         fu = FOO_USES[choose(len(FOO_USES), 'foo_uses')]; bu = BAR_USES[choose(len(BAR_USES), 'bar_uses')]
-        op, name = TARGET_OPS[choose(len(TARGET_OPS), 'operation')]
+        op, names = TARGET_OPS[choose(len(TARGET_OPS), 'operation')]
         text = "project('p')\ncommon = ['main.c', 'util.c']\nextra = files('x.c')\nexecutable('foo', %s)\nexecutable('bar', %s)\n" % (fu, bu)
         with open(os.path.join(d, 'meson.build'), 'w') as f: f.write(text)
         before = _target_info(d)
+        before_real = _real_targets(d)
+        asked = list(names)
+        if len(names) > 1:
+            # a command naming several files does what the one-file commands do together: a file whose one-file command is refused (e.g. it sits in a
+            # list shared with the other target) stays refused, the others are carried out
+            ok = []
+            for nm in names:
+                rw1 = R.Rewriter(d); rw1.analyze_meson()
+                rw1.process({'type': 'target', 'target': 'bar', 'operation': op, 'sources': [nm], 'subdir': '', 'target_type': 'executable'})
+                rw1.apply_changes()
+                if open(os.path.join(d, 'meson.build')).read() != text: ok.append(nm)
+                with open(os.path.join(d, 'meson.build'), 'w') as f: f.write(text)
+            names = ok
         rw = R.Rewriter(d)
         rw.analyze_meson()
-        rw.process({'type': 'target', 'target': 'bar', 'operation': op, 'sources': [name], 'subdir': '', 'target_type': 'executable'})
+        rw.process({'type': 'target', 'target': 'bar', 'operation': op, 'sources': asked, 'subdir': '', 'target_type': 'executable'})
         rw.apply_changes()
         new_text = open(os.path.join(d, 'meson.build')).read()
         try:
@@ -475,13 +490,106 @@ def ob_target_edit():
         except Exception:
             check(False, 'the edited file can still be analysed'); return
         check(after['foo'] == before['foo'], 'the other target keeps exactly its sources')
-        want = set(before['bar']) | {name} if op == 'src_add' else set(before['bar']) - {name}
+        want = set(before['bar']) | set(names) if op == 'src_add' else set(before['bar']) - set(names)
+        try:
+            real = _real_targets(d)
+        except Exception:
+            check(False, 'the rewritten build file still evaluates (real interpreter)'); return
+        check(set(real['foo'][0]) == set(before_real['foo'][0]), 'the other target keeps exactly its sources (real interpreter)')
+        if new_text != text:
+            rwant = set(before_real['bar'][0]) | set(names) if op == 'src_add' else set(before_real['bar'][0]) - set(names)
+            check(set(real['bar'][0]) == rwant, 'the addressed target has exactly the requested sources (real interpreter)')
         if new_text == text:
             cover('refused-or-nothing-to-do')       # e.g. removing from a list shared with another target: the rewriter warns and leaves the file alone
             check(after['bar'] == before['bar'], 'an unchanged file means unchanged targets')
         else:
             check(set(after['bar']) == want, 'the addressed target has exactly the requested sources')
             cover('edited')
+    return h
+
+_RENV = {}
+
+
+def _real_targets(d):
+    """the build file of directory d evaluated by the REAL interpreter (operators, files(), argument flattening as the language defines them); only the function
+    `executable` is a recorder -> {name: (sources, extra_files)}. Raises what the interpreter raises (e.g. str + list is a type error in the language)."""
+    import os, tempfile, argparse, atexit, shutil
+    from mesonbuild import build, environment, cmdline
+    from mesonbuild.interpreter import Interpreter
+    from mesonbuild.mesonlib import File, listify
+    if d not in _RENV:
+        p = argparse.ArgumentParser(); cmdline.register_builtin_arguments(p)
+        o = p.parse_args([]); o.cross_file = []; o.native_file = []
+        cmdline.parse_cmd_line_options(o)
+        b = tempfile.mkdtemp(prefix='c17bld')
+        atexit.register(lambda: shutil.rmtree(b, ignore_errors=True))
+        _RENV[d] = (environment.Environment(d, b, o), o)
+    env, o = _RENV[d]
+    ast = mp.Parser(open(os.path.join(d, 'meson.build')).read(), 'meson.build').parse()
+    it = Interpreter(build.Build(env), ast=ast, backend=None, user_defined_options=o)
+    out = {}
+    norm = lambda x: x.relative_name() if isinstance(x, File) else x
+
+    def exe(node, args, kwargs):
+        out[args[0]] = ([norm(x) for x in listify(args[1:]) + listify(kwargs.get('sources', []))], [norm(x) for x in listify(kwargs.get('extra_files', []))])
+    it.funcs['executable'] = exe
+    it.run()
+    return out
+
+
+def _target_info2(d):
+    rw = R.Rewriter(d)
+    rw.analyze_meson()
+    for t in ('foo', 'bar'):
+        rw.process({'type': 'target', 'target': t, 'operation': 'info'})
+    return {v['name']: (list(v['sources']), list(v['extra_files'])) for v in rw.info_dump['target'].values()}
+
+
+BAR_EXTRA = ['', ", extra_files : 'x.c'", ", extra_files : ['x.c', 'v.c']", ", extra_files : extra", ", extra_files : xname", ", extra_files : [xname]"]
+EXTRA_OPS = [('extra_files_add', 'alpha.c'), ('extra_files_add', 'x.c'), ('extra_files_rm', 'x.c'), ('extra_files_rm', 'alpha.c'), ('src_add', 'alpha.c'), ('src_rm', 'util.c')]
+
+
+def ob_target_extra():
+    """extra files (and sources next to them) through the real Rewriter, judged by the REAL interpreter: however the target spells its extra_files (absent, a
+    string, a list, files(), a variable holding a string) the rewritten build file still evaluates, the addressed list has exactly the requested members
+    (or the edit is refused and nothing changes), the other list and the other target are as before, and `info` agrees with the interpreter"""
+    def h():
+        import os
+        d = _tdir()
+        bu = BAR_USES[choose(3, 'bar_uses')]; ex = BAR_EXTRA[choose(len(BAR_EXTRA), 'bar_extra_files')]
+        op, name = EXTRA_OPS[choose(len(EXTRA_OPS), 'operation')]
+        text = "project('p')\ncommon = ['main.c', 'util.c']\nextra = files('x.c')\nxname = 'x.c'\nexecutable('foo', common, 'foo.c', extra_files : 'zeta.c')\nexecutable('bar', %s%s)\n" % (bu, ex)
+        with open(os.path.join(d, 'meson.build'), 'w') as f: f.write(text)
+        before = _real_targets(d)
+        rw = R.Rewriter(d)
+        rw.analyze_meson()
+        crashed = False
+        try:
+            rw.process({'type': 'target', 'target': 'bar', 'operation': op, 'sources': [name], 'subdir': '', 'target_type': 'executable'})
+            rw.apply_changes()
+        except Exception:
+            crashed = True       # judged by the letter of the property below: nothing may have changed, and the requested state must already hold
+        new_text = open(os.path.join(d, 'meson.build')).read()
+        try:
+            after = _real_targets(d)
+        except Exception:
+            check(False, 'the rewritten build file still evaluates (real interpreter)'); return
+        check(after['foo'] == before['foo'], 'the other target keeps its sources and extra files')
+        bs, be = set(before['bar'][0]), set(before['bar'][1])
+        if op == 'src_add': bs = bs | {name}
+        elif op == 'src_rm': bs = bs - {name}
+        elif op == 'extra_files_add': be = be | {name}
+        else: be = be - {name}
+        if crashed:
+            check(new_text == text and set(before['bar'][0]) == bs and set(before['bar'][1]) == be, 'a command that ends in a Python error has changed nothing and had nothing to do')
+        if new_text == text:
+            cover('refused-or-nothing-to-do')
+        else:
+            check(set(after['bar'][0]) == bs, 'the addressed target has exactly the requested sources (real interpreter)')
+            check(set(after['bar'][1]) == be, 'the addressed target has exactly the requested extra files (real interpreter)')
+            cover('edited')
+        info = _target_info2(d)
+        check(set(info['bar'][0]) == set(after['bar'][0]) and set(info['bar'][1]) == set(after['bar'][1]), '`info` reports what the interpreter computes')
     return h
 
 
@@ -556,6 +664,7 @@ def obligations(tier):
         out.append(Obligation('operator-pairs[%d]' % f, ob_pairs(f), dict(form=f, operators='all pairs of ' + repr(BIN)), labels=('roundtrip',), max_paths=5000000))
     # reprint[depth 2] (every derivation to depth 2 over BIN2) was measured: 6.7 million paths after 50 minutes and not finished - not part of the
     # registered tiers; the precedence-relevant depth-2 shapes are what operator-pairs[...] enumerate
+    out.append(Obligation('target-extra-files', ob_target_extra(), dict(extra_files_spelling=BAR_EXTRA, source_shapes=3, operations=[o for o, _ in EXTRA_OPS], oracle='the real Interpreter with `executable` recording'), labels=('edited', 'refused-or-nothing-to-do')))
     out.append(Obligation('target-add-rm', ob_target_add_rm(), dict(operations='add target | remove target | add then remove', file_end=repr(TAILS), statement_forms=len(BAR_FORMS), position='first | last target'), labels=('added', 'removed', 'restored')))
     out.append(Obligation('target-edit', ob_target_edit(), dict(shapes='%d ways foo uses the shared list x %d ways bar does' % (len(FOO_USES), len(BAR_USES)), operations='add new / add existing / rm shared / rm own',
                           files='real files in a scratch directory (pathlib resolves them): names concrete'), labels=('edited', 'refused-or-nothing-to-do'), path_timeout=300))
